@@ -591,6 +591,7 @@ pub struct Stats {
     pub reads: u64,
     pub reader_reads: u64,
     pub reader_reads_after_placement: u64,
+    pub reader_versioned_batteries: u64,
     pub cursor_ops: u64,
     pub cursor_ops_after_placement: u64,
     pub placements: usize,
@@ -613,6 +614,7 @@ impl Stats {
         self.reads += o.reads;
         self.reader_reads += o.reader_reads;
         self.reader_reads_after_placement += o.reader_reads_after_placement;
+        self.reader_versioned_batteries += o.reader_versioned_batteries;
         self.cursor_ops += o.cursor_ops;
         self.cursor_ops_after_placement += o.cursor_ops_after_placement;
         self.placements += o.placements;
@@ -1056,6 +1058,20 @@ impl Exec {
             let rids: Vec<usize> = self.readers.keys().cloned().collect();
             for rid in rids {
                 self.reader_gets(rid)?;
+                // time-travel reads and history listings through the open reader, at its
+                // horizon: what was committed after it began - a replace or a hard delete in
+                // particular - must not change them, whatever compaction made of it. (Not with
+                // finite retention, where versions may expire under a reader, and not with the
+                // version index, which is not kept per snapshot.)
+                if self.opts.versioned && self.cfg.versioning && self.cfg.retention == 0 && !self.cfg.index {
+                    let Some(r) = self.readers.get(&rid) else { continue };
+                    if !r.pending.is_empty() {
+                        continue;
+                    }
+                    let (txn, horizon) = (r.txn(), r.horizon);
+                    self.versioned_battery(txn, horizon)?;
+                    self.stats.reader_versioned_batteries += 1;
+                }
             }
         }
         Ok(())
